@@ -5,20 +5,20 @@ CONSTANTS
   KeySet <- mcKeys1
   TimeSet = {1}
   VLens = {4}
-  MaxOff = 10
-  MaxBatch = 3
-  MaxSets = 3
-  Rollovers = {5, 50, 100, 1000}
-  Versions = {2}
+  MaxOff = 5
+  MaxBatch = 2
+  MaxSets = 2
+  Rollovers = {50, 1000}
+  Versions = {1, 2}
   KeyIndex = FALSE
   TimeIndex = FALSE
-  OptKeep <- FF
-  OptEager <- FF
-  OptCheck <- FF
-  OptRecover <- FF
+  OptKeep <- TF
+  OptEager <- TF
+  OptCheck <- TF
+  OptRecover <- TF
   AllowRO = TRUE
-  AllowRmIndex = FALSE
-  AllowMigrate = FALSE
+  AllowRmIndex = TRUE
+  AllowMigrate = TRUE
 VIEW view
 INVARIANTS Fidelity NextOK NextDerivable Sorted FirstIsBase IndexDerived IndexLen ConsumeInv GetInv ScanInv DeleteInv
 PROPERTIES NextMonotone
